@@ -10,5 +10,7 @@ CONSTANTS
   Seeds <- AllSeeds
   Cases <- AllCases
   Policies <- Both
+  Configs <- AllConfigs
+  ConfigDepth = 2
 INVARIANTS NonInterference FinalEqualsSolo Emit
 CHECK_DEADLOCK FALSE
